@@ -15,12 +15,20 @@ alias, and one binds the *name* `connect` to write_pandas.  The reference model 
 object / a working fake after which event.  Where the implementation deviates, exploration continues from the state
 it actually entered (observed status is part of the state), so everything behind a known deviation is still explored.
 
-CLI (engine E2, complete product).  Every token sequence of length <= L over TOKENS is given to the real
+CLI (engine E2, complete product).  The option alphabet is derived at run time from fakesnow.cli.arg_parser() (every
+option string, with or without value, separate / '=' / attached spellings; the hand-written table of today's options
+is only a cross-check that leaves a note in the evidence).  Every token sequence of length <= L over it, plus
+constructed longer lines (shaped_lines), is given to the real
 `fakesnow.cli.main`, in a scratch directory holding one recorder script per token that can name a path and one
 recorder module per token that can name a module; a recorder appends what it saw (sys.argv, whether the fake is on)
 to a sink owned by the harness.  The expectation comes from mc/ref/argv_split.py (argparse's grammar over the option
 table + "everything after the target specification is the target's").  `fakesnow.patch` is wrapped while main runs
 to see the db_path it is called with; eight further runs check end to end that the database file appears under -d.
+
+COMBINED.  Every ordered pair of single targets of different kinds (valid from-imports, aliased, in modules not yet
+imported; non-existent module / attribute, non-snowflake function, also inside a module patch() has to import) is
+passed in ONE target list; whatever the outcome, a correct patch() listing the real targets of the modules involved
+follows, and every step is judged by the same clauses (quick: pairs with at least one failing target).
 
 PAIRS.  Besides the BFS, every ordered pair (a, b) of target lists (quick: b from PAIR_SECOND_QUICK) is executed as "block with a, left normally if it
 could be entered; then enter with b" with the full set of probes, so that what patch() may remember of an earlier call
@@ -120,7 +128,7 @@ HELPER_SRC = {
     "c20h_wp": "from snowflake.connector.pandas_tools import write_pandas  # noqa: F401\n",
     # binds the connector under other names (and, beside them, under the usual one)
     "c20h_alias": _ALIASED,
-    "c20h_lazy": "from snowflake.connector import connect  # noqa: F401\n",
+    "c20h_lazy": "from snowflake.connector import connect  # noqa: F401\n\n\ndef other():\n    return 'not a snowflake function'\n",
     "c20h_lazy_alias": _ALIASED,
     # the same alias as c20h_lazy_alias.sf_connect, and the *name* `connect` bound to write_pandas
     "c20h_lazy_alias2": (
@@ -181,7 +189,58 @@ TARGET_LISTS = {
     "valid+nonexistent-attr": ([T_CONN, "c20h_conn.nope"], False),
     "nonexistent-module+valid": (["c20h_nomod.connect", T_CONN], False),
     "unimported-aliased+nonexistent-attr": ([f"{LA}.sf_connect", "c20h_conn.nope"], False),
+    # the failing name is in the module patch() has to import for it
+    "unimported-module:nonexistent-attr": (["c20h_lazy.nope"], False),
 }
+BASE_TARGET_LISTS = list(TARGET_LISTS)
+
+# ---- combined target lists: every ordered pair of single targets in ONE call, then the modules' real targets ----------
+SINGLE_VALID = {
+    "from-import-connect": T_CONN,
+    "from-import-write_pandas": T_WP,
+    "aliased-connect": f"{A}.sf_connect",
+    "aliased-write_pandas": f"{A}.sf_write_pandas",
+    "unaliased-beside-alias": f"{A}.connect",
+    "unimported-module": T_LAZY,
+    "unimported-aliased-connect": f"{LA}.sf_connect",
+    "unimported-aliased-write_pandas": f"{LA}.sf_write_pandas",
+    "unimported2-write_pandas-named-connect": f"{LA2}.connect",
+}
+SINGLE_FAILING = {
+    "nonexistent-module": "c20h_nomod.connect",
+    "nonexistent-attr": "c20h_conn.nope",
+    "non-snowflake-fn": "c20h_conn.other",
+    "malformed": "connect",
+    "unimported-module:nonexistent-attr": "c20h_lazy.nope",
+    "unimported-module:non-snowflake-fn": "c20h_lazy.other",
+    "unimported-aliased:nonexistent-attr": f"{LA}.nope",
+}
+SINGLES = {**SINGLE_VALID, **SINGLE_FAILING}
+
+
+def _real_targets(*targets):
+    """every watched target of the helper modules named by these targets (what a later, correct patch() would list)"""
+    mods = []
+    for t in targets:
+        m = t.rpartition(".")[0]
+        if m and m not in mods and any(w[1] == m for w in WATCHED[2:]):
+            mods.append(m)
+    return [f"{w[1]}.{w[2]}" for w in WATCHED[2:] if w[1] in mods]
+
+
+def combined_id(a, b):
+    return f"combined:{a}+{b}"
+
+
+for _a, _ta in SINGLES.items():
+    for _b, _tb in SINGLES.items():
+        TARGET_LISTS[combined_id(_a, _b)] = ([_ta, _tb], _a in SINGLE_VALID and _b in SINGLE_VALID)
+        TARGET_LISTS[f"real:{_a}+{_b}"] = (_real_targets(_ta, _tb), True)
+
+
+def combined_pairs(tier):
+    """quick: every pair with at least one failing single (both orders); thorough: every ordered pair"""
+    return [(a, b) for a in SINGLES for b in SINGLES if tier != "quick" or a in SINGLE_FAILING or b in SINGLE_FAILING]
 # quick tier: the target lists above minus these (they only multiply the lazily-imported-module states)
 THOROUGH_ONLY = ["unimported-cross-named", "unimported-aliased+nonexistent-attr"]
 NESTED_INNER_QUICK = ["none", "from-import-connect", "unimported-module", "unimported-aliased", "nonexistent-module"]
@@ -196,11 +255,11 @@ PAIR_SECOND_QUICK = [
 
 
 def pair_seconds(tier):
-    return PAIR_SECOND_QUICK if tier == "quick" else list(TARGET_LISTS)
+    return PAIR_SECOND_QUICK if tier == "quick" else list(BASE_TARGET_LISTS)
 
 
 def target_lists(tier):
-    return [t for t in TARGET_LISTS if tier != "quick" or t not in THOROUGH_ONLY]
+    return [t for t in BASE_TARGET_LISTS if tier != "quick" or t not in THOROUGH_ONLY]
 
 
 def listed_kinds(tlid):
@@ -220,7 +279,7 @@ def ops_for(state, tier):
         return [("enter", t) for t in target_lists(tier)]
     ops = [("exit", m) for m in EXIT_MODES]
     if len(open_) < MAX_DEPTH:
-        inner = NESTED_INNER_QUICK if tier == "quick" else list(TARGET_LISTS)
+        inner = NESTED_INNER_QUICK if tier == "quick" else list(BASE_TARGET_LISTS)
         ops += [("enter", t) for t in inner]
     return ops
 
@@ -686,6 +745,47 @@ def expand_patch(item, acc, tier):
     return succ
 
 
+def run_scenario(ops, acc, counter):
+    """One straight run of ops from the pristine state, every step probed and judged (an exit with nothing open is
+    skipped).  -> number of steps executed"""
+    r = Real()
+    r.pristine()
+    n = 0
+    try:
+        state, imp, hist = INITIAL, {}, []
+        for op in ops:
+            obs = r.apply(op, probe=True)
+            if obs.get("skipped"):
+                continue
+            post = next_state(state, op, obs)
+            record_transition(acc, counter, state, op, obs, post, imp, list(hist))
+            note_imports(imp, op, obs)
+            hist.append(op)
+            state = post
+            n += 1
+    finally:
+        r.cleanup()
+    return n
+
+
+def work_combined(item, acc, tier):
+    """Two single targets of different kinds in ONE target list (each pair, both orders), left normally if the enter
+    succeeded; then a correct patch() listing the real targets of the modules involved, left by an exception."""
+    a = item[1]
+    n = 0
+    with sandbox("c20k", {f"{m}.py": s for m, s in HELPER_SRC.items()}):
+        for a2, b in combined_pairs(tier):
+            if a2 != a:
+                continue
+            ops = [("enter", combined_id(a, b)), ("exit", "normal")]
+            if TARGET_LISTS[f"real:{a}+{b}"][0]:
+                ops += [("enter", f"real:{a}+{b}"), ("exit", "exception")]
+            n += run_scenario(ops, acc, "patch_combined_transitions")
+        if a == "unimported-module:nonexistent-attr":
+            acc.sample({"part": "patch-combined", "first_target": SINGLES[a], "second_target_each_of": [SINGLES[b] for a2, b in combined_pairs(tier) if a2 == a], "then": "enter with the real targets of the modules involved"})
+    return n
+
+
 def work_pairs(item, acc, tier):
     """Every ordered pair of target lists: a block with list a (left normally if it could be entered), then enter
     with list b - what patch() remembers of an earlier call must not show in a later one."""
@@ -812,7 +912,33 @@ def work_options(item, acc, tier):
 # =====================================================================================================================
 # CLI part
 # =====================================================================================================================
-TOKENS = [
+def cli_table():
+    """fakesnow's option table, taken from the parser of the tree under test at run time"""
+    import fakesnow.cli
+
+    return ref.table_from_parser(fakesnow.cli.arg_parser())
+
+
+def unknown_option(table):
+    for cand in ("--flag", "--c20-unknown-option", "--zz-c20-unknown"):
+        if ref.kind(cand, table) == "O" and ref.match_option(cand, table) is None and not any(s.startswith(cand) for o in table.options for s in o.strings):
+            return cand
+    raise core.HarnessError("C20: no spelling for an unknown option")
+
+
+def tokens_for(table):
+    """The token alphabet of the argv product: every spelling of every option the parser has (own options with and
+    without value, the module option: separate / '=' / attached forms), plain values, an unknown option, '--'."""
+    toks = [ts[0] for _form, ts in ref.own_option_forms(table, "x")]
+    toks.append("x")
+    toks += [ts[0] for _form, ts in ref.module_forms(table, "mod")]
+    toks += ["mod", "script.py", "a", unknown_option(table), "--"]
+    return list(dict.fromkeys(toks))
+
+
+# today's alphabet, from the hand-written table (cross-check for the selftest; runs use tokens_for(cli_table()))
+TOKENS = tokens_for(ref.DEFAULT_TABLE)
+HAND_WRITTEN_TOKENS = [
     "-d", "--db_path", "--db_path=x", "-dx", "x",
     "-m", "--module", "--module=mod", "-mmod", "mod",
     "script.py", "a", "--flag", "--",
@@ -848,8 +974,8 @@ _c.cursor().execute("insert into t values (1)")
 _s.records.append({{"me": {me!r}, "argv": list(sys.argv), "name": __name__, "connect_is_orig": False, "wp_is_orig": False}})
 """
 
-PATH_TOKENS = [t for t in TOKENS if ref.kind(t) == "A"]  # every token that can name a script
-MODULE_TOKENS = sorted(set(PATH_TOKENS) | {"mod"})  # every token / attached value that can name a module
+PATH_TOKENS = ["x", "mod", "script.py", "a", "b"]  # every token that can name a script
+MODULE_TOKENS = sorted(PATH_TOKENS)  # every token / attached value that can name a module
 
 
 def cli_files():
@@ -919,7 +1045,7 @@ def cli_shape(p):
     return f"last-opt={last},target={p.target_form},targs={'n' if p.targs else '0'}"
 
 
-def judge_cli(argv, p, out):
+def judge_cli(argv, p, out, table=ref.DEFAULT_TABLE):
     """-> [(clause, class, failed, detail)]"""
     res = []
     recs = out["records"]
@@ -942,7 +1068,7 @@ def judge_cli(argv, p, out):
             calls = out["patch_calls"]
             if not calls:
                 raise core.HarnessError(f"C20: target ran for {argv} but the wrapper around fakesnow.patch was not called (seam bypassed)")
-            dbform = next((f for f in reversed(p.opt_forms) if f != ref.F_TERMINATOR), "none")
+            dbform = p.form_of_last("db_path")
             if len(set(p.db_paths)) <= 1:
                 ok = calls == [p.db_path]
             else:
@@ -951,41 +1077,70 @@ def judge_cli(argv, p, out):
     elif p.status in ("ok", "help"):
         res.append(("C20.cli.no_target", f"status={p.status}", bool(recs), base))
     else:
-        specs = ref.target_specs(argv)
+        specs = ref.target_specs(argv, table)
         bad = [r for r in recs if not any(r["me"] == list(t) and r["argv"][1:] == list(argv[j:]) for j, t in specs)]
         res.append(("C20.cli.malformed", f"status={p.status}", bool(bad), dict(base, why=p.why)))
     res.append(("C20.cli.restored", "after-main", not all(out["restored"]), dict(base, restored=list(out["restored"]))))
     return res
 
 
-def argv_block(prefix, max_len):
+def argv_block(prefix, max_len, toks):
     """all sequences prefix+tail with len(tail) <= BLOCK_TAIL (and total length <= max_len), in a fixed order"""
     for k in range(0, min(BLOCK_TAIL, max_len - len(prefix)) + 1):
-        for tail in itertools.product(TOKENS, repeat=k):
+        for tail in itertools.product(toks, repeat=k):
             yield tuple(prefix) + tail
 
 
-def argv_items(tier):
+def argv_items(tier, toks):
     L = MAX_LEN[tier]
     K = max(L - BLOCK_TAIL, 0)
-    items = [("argv", tuple(p), L) for p in itertools.product(TOKENS, repeat=K)]
+    items = [("argv", tuple(p), L) for p in itertools.product(toks, repeat=K)]
     if K > 0:
         items.append(("argv-short", K - 1, L))  # every sequence shorter than K
     return items
 
 
-def expected_argv_count(tier):
-    return sum(len(TOKENS) ** k for k in range(MAX_LEN[tier] + 1))
+def expected_argv_count(tier, toks):
+    return sum(len(toks) ** k for k in range(MAX_LEN[tier] + 1))
+
+
+def shaped_lines(table):
+    """Lines longer than the product reaches, by construction: every spelling of every own option (also none, and every
+    ordered pair of spellings) directly before every way of naming the target (script path, each module form,
+    `-- path`), followed by 0, 1 and 2 target arguments including ones that look like options (-m, --, -d, and every
+    own option string)."""
+    own = [("none", [])] + ref.own_option_forms(table, "x")
+    targets = [("path", ["script.py"])] + ref.module_forms(table, "mod") + [("-- path", ["--", "script.py"])]
+    arglists = [[], ["a"], ["-m"], ["--"], ["-d"], ["a", "b"], ["a", "-m"], ["-m", "x"], ["--", "a"], ["-d", "x"]]
+    for o in table.options:
+        if o.role == "own":
+            for st in o.strings:
+                arglists += [[st], [st, "x"], ["a", st]]
+    arglists = [list(t) for t in dict.fromkeys(tuple(a) for a in arglists)]
+    lines = []
+    for _f, o in own:
+        for _t, t in targets:
+            for a in arglists:
+                lines.append(tuple(o + t + a))
+    for _f1, o1 in own[1:]:
+        for _f2, o2 in own[1:]:
+            for _t, t in targets:
+                for a in ([], ["a"], ["a", "b"], ["-m", "x"]):
+                    lines.append(tuple(o1 + o2 + t + a))
+    return list(dict.fromkeys(lines))
+
+
+SHAPED_CHUNKS = 16
 
 
 SAMPLE_ARGV = ("--db_path=x", "script.py", "a")
 
 
-def check_argv(argv, acc):
-    p = ref.parse(argv)
+def check_argv(argv, acc, table, counter="argv_sequences"):
+    p = ref.parse(argv, table)
     out = run_cli(argv)
     acc.count("evaluations")
-    acc.count("argv_sequences")
+    acc.count(counter)
     acc.count(f"argv_{p.status}")
     if out["records"]:
         acc.count("argv_target_executions", len(out["records"]))
@@ -994,7 +1149,7 @@ def check_argv(argv, acc):
     if p.status == "ok" and p.target is not None:
         acc.nontrivial(("argv", argv))
         acc.add("argv_shapes", cli_shape(p))
-    verdicts = judge_cli(argv, p, out)
+    verdicts = judge_cli(argv, p, out, table)
     acc.outcome(("cli", p.status, cli_shape(p) if p.target else None, out["end"][0], len(out["records"]), tuple(f for _c, _k, f, _d in verdicts)))
     for clause, cls, failed, detail in verdicts:
         acc.member(clause, cls, failed)
@@ -1009,12 +1164,18 @@ def work_argv(item, acc, tier):
     n = 0
     with sandbox("c20c", cli_files()) as d:
         os.chdir(d)
+        table = cli_table()
+        toks = tokens_for(table)
+        counter = "argv_sequences"
         if item[0] == "argv":
-            seqs = argv_block(item[1], item[2])
+            seqs = argv_block(item[1], item[2], toks)
+        elif item[0] == "argv-short":
+            seqs = (s for k in range(0, item[1] + 1) for s in itertools.product(toks, repeat=k))
         else:
-            seqs = (s for k in range(0, item[1] + 1) for s in itertools.product(TOKENS, repeat=k))
+            seqs = shaped_lines(table)[item[1] :: SHAPED_CHUNKS]
+            counter = "argv_shaped_lines"
         for argv in seqs:
-            check_argv(tuple(argv), acc)
+            check_argv(tuple(argv), acc, table, counter)
             n += 1
     return n
 
@@ -1080,7 +1241,9 @@ def work(item, acc, tier):
         return expand_patch(item, acc, tier)
     if tag == "patch-pairs":
         return work_pairs(item, acc, tier)
-    if tag in ("argv", "argv-short"):
+    if tag == "patch-combined":
+        return work_combined(item, acc, tier)
+    if tag in ("argv", "argv-short", "argv-shaped"):
         return work_argv(item, acc, tier)
     if tag == "options":
         return work_options(item, acc, tier)
@@ -1091,13 +1254,25 @@ def work(item, acc, tier):
 
 def run(ctx: core.Ctx):
     tier = ctx.tier
+    table = cli_table()
+    toks = tokens_for(table)
+    if table != ref.DEFAULT_TABLE or toks != HAND_WRITTEN_TOKENS:
+        ctx.acc.note(
+            "fakesnow.cli.arg_parser() no longer has exactly the hand-written option table (db_path, module, help): "
+            f"the argv alphabet was derived from the parser: {toks}"
+        )
+    unmodelled = [o.dest for o in table.options if o.takes_value is None]
+    if unmodelled or table.positionals != ("path", "targs"):
+        ctx.acc.note(f"parser parts the reference does not model (lines using them are 'unspecified'): options {unmodelled}, positionals {list(table.positionals)}")
     ctx.rule = (
         "patch: BFS to fixpoint over (open blocks, status of every attribute of the not-yet-imported helper modules, "
         "attributes left non-original outside any block, last top-level event); every enabled operation (enter with each of the "
         f"{len(target_lists(tier))} target lists, leave normally, leave by exception) is executed on the real fakesnow.patch after "
         "replaying the state's history from a pristine interpreter state; non-trivial = transition that changes the "
         f"abstract state; each state is expanded from up to {HISTORIES_PER_STATE[tier]} different histories. cli: every token sequence of "
-        f"length <= {MAX_LEN[tier]} over the {len(TOKENS)} tokens is run through the real fakesnow.cli.main against "
+        f"length <= {MAX_LEN[tier]} over the {len(toks)} tokens derived from fakesnow.cli.arg_parser() (every spelling of "
+        "every option) plus the constructed longer lines (each own-option spelling, singly and in ordered pairs, directly "
+        "before each way of naming the target, with 0-2 target arguments) is run through the real fakesnow.cli.main against "
         "recorder targets; non-trivial = the reference names a target (the expectation is a concrete target and "
         "sys.argv). options: full product of patch() option values, patch() vs FakeSnow() differential."
     )
@@ -1148,6 +1323,9 @@ def run(ctx: core.Ctx):
         depth += 1
     # ---- patch: every ordered pair of target lists (earlier block, later enter)
     ctx.pmap(work, [("patch-pairs", a) for a in target_lists(tier)], chunk=1)
+    # ---- patch: every ordered pair of single targets in one target list, then the real targets
+    ctx.pmap(work, [("patch-combined", a) for a in SINGLES], chunk=1)
+    ctx.extra["patch_combined_target_lists"] = len(combined_pairs(tier))
     for st in seen:
         ctx.acc.add("states", st)
     ctx.acc.counters["patch_max_depth"] = depth
@@ -1163,14 +1341,20 @@ def run(ctx: core.Ctx):
         if not told_apart:
             raise core.HarnessError(f"C20: the options probe cannot tell the values of {key} apart")
     ctx.pmap(work, e2e_items(), chunk=1)
-    res = ctx.pmap(work, argv_items(tier))
+    res = ctx.pmap(work, argv_items(tier, toks))
     enumerated = sum(n for _i, n in res)
-    expected = expected_argv_count(tier)
+    expected = expected_argv_count(tier, toks)
     if enumerated != expected or ctx.acc.counters.get("argv_sequences") != expected:
         raise core.HarnessError(f"C20: enumerated {enumerated} argv sequences, the stated space has {expected}")
+    res = ctx.pmap(work, [("argv-shaped", k) for k in range(SHAPED_CHUNKS)], chunk=1)
+    n_shaped = len(shaped_lines(table))
+    if sum(n for _i, n in res) != n_shaped or ctx.acc.counters.get("argv_shaped_lines") != n_shaped:
+        raise core.HarnessError(f"C20: ran {sum(n for _i, n in res)} constructed lines, there are {n_shaped}")
     ctx.exhaustive = True
     ctx.extra["bound"] = f"patch: fixpoint (frontier emptied at depth {depth}); argv: all sequences of length <= {MAX_LEN[tier]}"
-    ctx.extra["argv_tokens"] = TOKENS
+    ctx.extra["argv_tokens"] = toks
+    ctx.extra["argv_option_table"] = table.describe()
+    ctx.extra["argv_constructed_lines"] = n_shaped
     ctx.extra["argv_max_len"] = MAX_LEN[tier]
     ctx.extra["argv_space"] = expected
     ctx.extra["argv_distinct_wellformed_shapes"] = len(ctx.acc.sets.get("argv_shapes", ()))
@@ -1209,12 +1393,13 @@ def replay(payload):
         argv = tuple(r["argv"])
         with sandbox("c20r", cli_files()) as d:
             os.chdir(d)
-            p = ref.parse(argv)
+            table = cli_table()
+            p = ref.parse(argv, table)
             out = run_cli(argv)
         print("argv:", list(argv))
         print("reference:", p)
         print("observed:", out)
-        verdicts = judge_cli(argv, p, out)
+        verdicts = judge_cli(argv, p, out, table)
     elif part == "options":
         with sandbox("c20r", {}) as d:
             os.chdir(d)
